@@ -333,7 +333,7 @@ SPECS = {
         engine="constprobe",
         custom=custom.c18_custom,
         runs=lambda tier, seed: [],
-        technique="rustc's const evaluator (the Miri engine) as the UB monitor over ~2500 (quick) / ~5300 (thorough) generated const/static items, plus native re-evaluation of the same const fns and comparison of the results",
+        technique="rustc's const evaluator (the Miri engine) as the UB monitor over ~2500 (quick) / ~5300 (thorough) generated const/static items, a second pass under the nightly evaluator with -Zextra-const-ub-checks (intermediate references validated too), plus native re-evaluation of the same const fns and comparison of the results",
         level="other",
         level_text=("A generator instantiates every const fn of the crate (slice/array reinterpretation both ways, the four chunk functions over every "
                     "L in 0..=3N+2 on exactly-sized backing arrays, from_chunks/into_chunks, uninit/assume_init, len, arr!, const_default/DEFAULT, "
@@ -353,7 +353,7 @@ SPECS = {
     ),
     "C17": dict(
         engine="serdeq",
-        technique="recording Serializer (call-sequence monitor) + encodings vs tuple/Vec/concatenation references in JSON, bincode and serde_json::Value + scripted Deserializer/SeqAccess grid with ledger-tracked elements (8-byte and zero-sized-with-Drop), fixed up-front hints against N = 4097 / 8192; Miri/memcheck",
+        technique="recording Serializer (call-sequence monitor) + encodings vs tuple/Vec/concatenation references in JSON, bincode and serde_json::Value + scripted Deserializer/SeqAccess grid with ledger-tracked elements (8-byte and zero-sized-with-Drop), zero-sized elements on the serialising side, fixed up-front hints against N = 4097 / 8192; Miri/memcheck",
         level="exploration",
         level_text=("A recording Serializer must see serialize_tuple(N), N x serialize_element in index order, end (never serialize_seq); JSON text must "
                     "equal the element list's, bincode bytes the concatenation of the elements' encodings with no length prefix, and JSON / bincode / "
@@ -397,7 +397,7 @@ SPECS = {
         also_custom=custom.c18_custom,
         also_families=("const_default",),
         engine="zc",
-        technique="per-address visit counter inside the element's Zeroize impl + value read-back; constant default compared element-wise at run time AND for const items evaluated by the compiler; Miri for structurally built arrays",
+        technique="per-address visit counter inside the element's Zeroize impl + value read-back; constant default compared element-wise at run time AND for const items evaluated by the compiler AND with Default::default() (incl. defaults that are zero only in their leading bytes); Miri for structurally built arrays",
         level="exploration",
         level_text=("Every N in 0..=64 plus 100, 127, 128, 255, 256, 1000, 1023, 1024 (every even/odd storage shape to depth 10), seeded random prior "
                     "contents, element types u8, u64, [u8;3], NonZeroU32 (zeroizes to 1), nested arrays and a Mark type whose zeroized value, "
@@ -434,7 +434,7 @@ SPECS = {
         also_custom=custom.corpus_for("C13"),
         also_families=("corpus",),
         engine="cmpfmt",
-        technique="reference-model monitor: every comparison operator, a recording Hasher, map lookups through Borrow<[T]> and Debug under 26 literal + 70 dynamic flag combinations, against the slice of the same elements",
+        technique="reference-model monitor: every comparison operator, a recording Hasher, map lookups through Borrow<[T]> and Debug under 26 literal + 70 dynamic flag combinations, against the slice of the same elements; element types include NaN floats, types whose Ord and PartialOrd disagree, one-byte enums/bools, nested arrays",
         level="exploration",
         level_text=("Exhaustive ordered pairs (including the same object on both sides, since NaN makes == non-reflexive) over 3-4 letter alphabets "
                     "for N in 0..=3 (4 in thorough) with u8, i32, f64 {NaN, -0.0, 0.0, 1.0}, String and nested GenericArray<u8,U2> elements, plus seeded "
@@ -453,7 +453,7 @@ SPECS = {
         also_custom=custom.corpus_for("C08"),
         also_families=("corpus",),
         engine="order",
-        technique="call-order recorder: closures and element Clone/Default impls log (call number, arguments); compared with the same computation on slices for every receiver/argument form",
+        technique="call-order recorder: closures and element Clone/Default impls log (call number, arguments); compared with the same computation on slices for every receiver/argument form and every mix of droppable / plain / zero-sized / one-byte stateful-Default element types",
         level="exploration",
         level_text=("For N in 0..=13, 15..17, 24, 31..33, 63..65, 100, 127..129, 255..257, 1000, 1024 (511..513, 1023 in thorough): generate via the "
                     "owned type, &S, &mut S and Box; map and fold in the four receiver forms; zip in the nine stack forms plus Box x Box; Clone and "
@@ -617,7 +617,7 @@ SPECS = {
     ),
     "C03": dict(
         engine="history",
-        technique="random chained ownership histories (sources with hidden, claimed and bounded size hints; Debug of live objects as observations) against a shadow Vec model + ownership-ledger monitor; Miri/ASan on heap-payload elements",
+        technique="random chained ownership histories (sources with hidden, claimed and bounded size hints; zips against plain and differently-typed arrays; Debug of live objects as observations) against a shadow Vec model + ownership-ledger monitor; Miri/ASan on heap-payload elements",
         level="exploration",
         level_text=("Seeded random histories of 40..200 chained operations (outputs of one are inputs of the next) over a pool of arrays, "
                     "by-value iterators, nested arrays, Vecs, boxed slices and elements handed to the caller; after every step each pooled "
@@ -658,7 +658,7 @@ SPECS = {
         also_custom=custom.corpus_for("C06"),
         also_families=("corpus",),
         engine="iterq",
-        technique="reference-model monitor (VecDeque + [T;N]::into_iter twins) over exhaustive one-step transitions and seeded random sequences; ledger for overlap/skip; Miri/ASan",
+        technique="reference-model monitor (VecDeque + [T;N]::into_iter twins) over exhaustive one-step transitions and seeded random sequences; ledger for overlap/skip; Debug with up to 4096 elements left under several flag sets; Miri/ASan",
         level="exploration",
         level_text=("Part A executes every operation with every argument (0..=len+2, usize::MAX) from every reachable (front, back) position for "
                     "N in 0..=8 and compares the return value and the successor state with a VecDeque of the same ids and with "
@@ -677,7 +677,7 @@ SPECS = {
     ),
     "C04": dict(
         engine="faults",
-        technique="fault enumeration (injected panic at every callback index: closures, Clone incl. clone_from, Default, source iterators, builder/consumer positions) + ownership-ledger monitor; Miri/ASan/memcheck on heap-payload elements",
+        technique="fault enumeration (injected panic at every callback index: closures, Clone incl. clone_from, Default, source iterators, builder/consumer positions; outputs of a different type with the same layout; block-boundary indices on long arrays) + ownership-ledger monitor; Miri/ASan/memcheck on heap-payload elements",
         level_text=("Every (operation-form, N, callback index) for N in 0..=6,8 is executed with a panic injected at that index; an "
                     "online ownership ledger over identity-carrying elements decides exactly-once drop, and the injected payload must "
                     "propagate. This is exhaustive over crash points for the small lengths, sampled for large N; Miri, ASan and memcheck "
